@@ -34,6 +34,8 @@ def run_variant(name, fn):
         if bad:
             return name, nedits, 'VARIANT DOES NOT COMPILE: %s' % bad[:2], []
         ids = [c['property_id'] for c in json.load(open(os.path.join(VERIF, 'MANIFEST.json')))['checks']]
+        if os.environ.get('VERIF_ONLY'):
+            ids = os.environ['VERIF_ONLY'].split()          # targeted regression
         env = dict(os.environ, REBVERIF_REPO=tmp, REBVERIF_EVIDENCE_DIR=os.path.join(tmp, 'evidence'))
 
         def run(i):
